@@ -15,7 +15,7 @@ ASSUMPTIONS = ["explicit tolerance >= 0", "NaN modelled by an explicit flag per 
 OUTSIDE = ["integer-dtype flows", "float rounding inside the balance", "systems without any flow", "graphs beyond the bound"]
 BOUNDS = {
     "quick": dict(processes="sysenv + 2", flows="every multiset of 1..2 flows and every third multiset of 3 flows over the 6 ordered process pairs (parallel and opposing included)",
-                  flow_dims="3 rotating assignments of dimension subsets/orders from {t,a,b}", stocks="none / at p1 / at sysenv / without process / two",
+                  flow_dims="3 rotating assignments of dimension subsets/orders from {t,a,b}", stocks="none / at p1 / at sysenv / without process / two (one without process) / two at the same process",
                   modes="raise_error x {explicit symbolic tolerance, default tolerance}", lengths="t2 a2 b2"),
     "thorough": dict(processes="sysenv + 3", flows="multisets over 12 ordered pairs: all of size <= 2, every 9th of size 3, every 60th of size 4", flow_dims="3 assignments", stocks="as quick + stock at p2",
                      modes="two of the four per (graph, stocks), rotating", lengths="t2 a2 b2"),
@@ -42,7 +42,7 @@ def configs(tier, seed):
         fsets = [f for i, f in enumerate(fsets) if len(f) < 3 or (len(f) == 3 and i % 9 == 0) or (len(f) == 4 and i % 60 == 0)]
     else:
         fsets = [f for i, f in enumerate(fsets) if len(f) < 3 or i % 3 == 0]
-    stockcfgs = [[], ["p1"], ["sysenv"], [None], ["p1", None]] + ([["p2", "p1"]] if tier == "thorough" else [])
+    stockcfgs = [[], ["p1"], ["sysenv"], [None], ["p1", None], ["p1", "p1"]] + ([["p2", "p1"]] if tier == "thorough" else [])
     nrot = 3
     i = 0
     for fs in fsets:
@@ -111,7 +111,10 @@ def _build(cfg, w, nan=False, fortran=False):
 
     dims = {l: Dimension(name={"t": "Time", "a": "Alpha", "b": "Beta"}[l], letter=l, items=[f"{l}{i + 1}" for i in range(LENS[l])]) for l in "tab"}
     allset = DimensionSet(dim_list=[dims[l] for l in "tab"])
-    procs = {p: Process(name=p, id=i) for i, p in enumerate(cfg["procs"])}
+    ids = list(range(len(cfg["procs"])))
+    if cfg.get("permuted_ids") and len(ids) > 2:
+        ids = [0] + ids[2:] + [1]  # a hand-assembled system: ids do not follow the order of the processes dict
+    procs = {p: Process(name=p, id=i) for i, p in zip(ids, cfg["procs"])}
     flows, F = {}, {}
     for i, ((a, b), d) in enumerate(zip(cfg["flows"], cfg["fdims"])):
         name = f"{a} => {b} #{i}" if not cfg.get("short_names") else f"{a} => {b}"
